@@ -20,7 +20,7 @@ TRUSTED = ['model: coq/Cw/CwModel.v (transcription of ConfigWriter::Emit*, Escap
            'import emission, EmitNumber format, lexer keyword list, lexer identifier rules, string escapes, chunk rule',
            'boost::regex semantics of ^/$ (default perl syntax: also at embedded \\n \\r \\f) transcribed by hand; glibc printf("%.6f") is correctly rounded (half-even on the exact value)',
            'hook H1 (virtual clock) for the `version` attribute']
-ASSUMPTIONS = ['byte strings are NUL-free except in the cases aimed at F-C17-c', 'attribute paths within one request do not overlap (no key is a dotted prefix of another)',
+ASSUMPTIONS = ['numbers carry at most six decimals wherever equality with the supplied value is demanded (recorded finding number-precision)', 'attribute paths within one request do not overlap (no key is a dotted prefix of another)',
                'HTTP layer / JSON decoding / permissions are not part of this check (C18, C20)']
 
 ALLF = 'vars,address,address6,check_command,max_check_attempts,check_interval,display_name,notes,groups,zone,host_name,name,templates,last_check,state_raw,next_check'
